@@ -391,6 +391,15 @@ Matrix::Matrix(std::vector<double> diagonal_entries)
 
 Matrix::Matrix(std::vector<std::vector<Matrix>> block_matrices)
 {
+	// 0. Check the layout of the list of blocks: at least one row of blocks, and every row holds the same non-zero number of blocks.
+	bool valid_layout = !block_matrices.empty() && !block_matrices[0].empty();
+	for(unsigned int row = 1; valid_layout && row < block_matrices.size(); row++)
+		valid_layout = (block_matrices[row].size() == block_matrices[0].size());
+	if(!valid_layout)
+	{
+		std::cerr << "Error in libphysica::Matrix::Matrix(std::vector<std::vector<Matrix>>): The list of block matrices is empty or its rows do not hold the same non-zero number of blocks." << std::endl;
+		std::exit(EXIT_FAILURE);
+	}
 	// 1. Check dimensions of block matrices
 	bool valid_dimension = true;
 	for(unsigned int row = 0; row < block_matrices.size(); row++)
